@@ -20,7 +20,7 @@ import sys
 from .. import e2e, guard
 from ..common import Hang, Rng, hx, unhx, watchdog
 from ..runner import Check
-from . import c16_bridge
+from . import c16_bridge, c16_names
 from .c17 import parse_sx, unbound_aliased
 
 # (document, kind, None | failing mechanism) of every end-to-end case of this run: input of the
@@ -490,7 +490,8 @@ def evaluate(doc: dict, fmt: str, kind: str) -> tuple[str, str] | None:
                     obj = root.parse_obj(doc)
                     dumped = obj.dict(by_alias=True, exclude_unset=True)
         except Exception as e:  # noqa: BLE001
-            return ("sample_rejected", f"{type(e).__name__}: {str(e)[:300]}")
+            # what the emitted classes shadow is part of the observation (pydantic v2 evaluates annotations inside the class namespace)
+            return ("sample_rejected", f"{type(e).__name__}: {str(e)[:300]}" + (c16_names.shadow_tag(code) if kind == "pydantic_v2.BaseModel" else ""))
         diff = keys_differ(doc, dumped)
         if diff:
             return ("keys_differ", diff)
@@ -591,6 +592,8 @@ def cause_of(mechanism: str, observed: str) -> str:
         return "value_coerced_to_other_type"
     if mechanism == "generate_error":
         return observed.split(":")[0].replace("generate() raised ", "")
+    if mechanism == "sample_rejected" and c16_names.cause_from_tag(observed):
+        return c16_names.cause_from_tag(observed)   # member_shadows_own_type_class | member_shadows_sibling_type_class
     return "other"
 
 
@@ -600,7 +603,7 @@ def oracle_case(ck: Check, camp, doc: dict, fmt: str, kind: str) -> None:
     camp.hit(f"kind:{kind}")
     r = evaluate(doc, fmt, kind)
     if csv_pair(doc, fmt) is doc:   # a short CSV row is not the sample the generator inferred from (it pairs the whole header)
-        ACCEPT_LOG.append((doc, kind, None if r is None else r[0]))
+        ACCEPT_LOG.append((doc, kind, None if r is None else r[0], None if r is None else cause_of(r[0], r[1])))
     if r is None:
         camp.hit("accepted_and_keys_equal")
         if len(camp.samples) < 3 and 30 < len(json.dumps(doc)) < 240:
@@ -793,12 +796,15 @@ def run(ck: Check) -> None:
     guard.campaign(ck, campaign_infer, 600 if quick else 6000)
     guard.campaign(ck, campaign_valid, 600 if quick else 6000)
     guard.campaign(ck, c16_bridge.campaign_bridge, 120 if quick else 1500, sys.modules[__name__])
+    guard.campaign(ck, c16_names.campaign_member_rename, 300 if quick else 3000)
     del ACCEPT_LOG[:]
     guard.campaign(ck, campaign_documents, 200 if quick else 2500)
+    guard.campaign(ck, c16_names.campaign_selfnamed, 120 if quick else 1500, sys.modules[__name__])
     guard.campaign(ck, campaign_csv, 80 if quick else 800)
     guard.campaign(ck, campaign_csv_sample, 120 if quick else 1200)
     guard.campaign(ck, c16_bridge.campaign_accepts, list(ACCEPT_LOG))
     guard.campaign(ck, c16_bridge.campaign_v1_boundary, 2 if quick else 3, sys.modules[__name__])
+    ck.search_hooks.append(lambda ck_: c16_names.search_selfnamed(ck_, sys.modules[__name__]))
     ck.search_hooks.append(search_keys)
     known_findings(ck)
 
